@@ -2,13 +2,13 @@ SPECIFICATION GenSpec
 CONSTANTS
   Peers <- P2
   PeerSeq <- PS2
-  Trees <- T2
-  Acl <- AclS
-  Kv <- KvS
+  Trees <- T1
+  Acl <- None
+  Kv <- None
   Changes <- C2
   MaxPend = 3
   Dev <- None
   Budget <- Bg
-  GenDepth = 40
+  GenDepth = 30
 INVARIANT Emit
 CHECK_DEADLOCK FALSE
